@@ -194,6 +194,9 @@ theorem ty_iterCtor (dst : Nat) (w : IterCtor) (h : Option Item) (sc : IterScrip
     | noBlock k cls =>
       simp only
       exact ht.frame (Ext.same_block _ _ _ (noDealloc_dropsOf _))
+    | noAlloc n hal =>
+      simp only
+      exact ht.frame (Ext.same_block _ _ _ ((noDealloc_dropsOf _).append (noDealloc_hdrDrops _)))
     | leaked lay rl es k cls hes =>
       simp only
       refine ht.frame ?_
